@@ -2197,6 +2197,10 @@ bool Parser::parseDirectDeclaratorSuffix(DeclaratorSyntax*& decltor,
                         arrDecltorSx->asteriskTkIdx_ = consume();
                         break;
                     }
+                    else if (tkK == SyntaxKind::CloseBracketToken) {
+                        // The size is optional after qualifiers, too.
+                        break;
+                    }
                     else if (tkK != SyntaxKind::Keyword_static) {
                         if (!parseExpressionWithPrecedenceAssignment(arrDecltorSx->expr_)) {
                             skipTo(SyntaxKind::CloseBracketToken);
